@@ -694,5 +694,6 @@ func cmdGen(args []string) {
 	ch3 := writeIfChanged(filepath.Join(outDir, "Tables.v"), []byte(sb.String()))
 	ch4 := genAccess(repo, outDir)
 	ch5 := writeFuncTerms(repo, outDir)
-	fmt.Printf("gen: nodes=%d sigs=%d changed=%v,%v,%v,%v,%v\n", len(flat), len(sigs), ch1, ch2, ch3, ch4, ch5)
+	ch6 := writeInputWrites(repo, outDir)
+	fmt.Printf("gen: nodes=%d sigs=%d changed=%v,%v,%v,%v,%v,%v\n", len(flat), len(sigs), ch1, ch2, ch3, ch4, ch5, ch6)
 }
